@@ -88,6 +88,7 @@ type Opts struct {
 	Pure           func(callee *ssa.Function) bool // model call as pure application (no event havoc)
 	MaxPaths       int
 	MaxDepth       int
+	ConstLoops     bool            // loops whose test compares constants are executed concretely (up to 64 iterations)
 	PairIter       bool            // the iteration after a generalised one is precise (pairs of consecutive iterations)
 	Unroll         int             // 0: loop heads general from first visit; 1: first iteration precise
 	Start          ssa.Instruction // begin right after this instruction (region mode)
@@ -139,17 +140,18 @@ type deferred struct {
 }
 
 type frame struct {
-	fn     *ssa.Function
-	env    map[ssa.Value]*Term
-	free   []*Term
-	defers []deferred
-	prev   *ssa.BasicBlock
-	visits map[*ssa.BasicBlock]int
-	cands  map[*ssa.Phi]int64 // candidate lower-bound invariants of loop-head phis (checked at back edges)
-	depth  int
-	ret    func(results []*Term, r *ssa.Return)
-	parent *frame
-	region bool // values not in env are evaluated on demand
+	fn       *ssa.Function
+	env      map[ssa.Value]*Term
+	free     []*Term
+	defers   []deferred
+	prev     *ssa.BasicBlock
+	visits   map[*ssa.BasicBlock]int
+	concrete map[*ssa.BasicBlock]int // concrete iterations in progress per loop head
+	cands    map[*ssa.Phi]int64      // candidate lower-bound invariants of loop-head phis (checked at back edges)
+	depth    int
+	ret      func(results []*Term, r *ssa.Return)
+	parent   *frame
+	region   bool // values not in env are evaluated on demand
 }
 
 type memTrail struct {
